@@ -1,14 +1,15 @@
 #!/bin/bash
-# tools/run_seeded.sh <patch.diff> [ID ...]   apply a seeded change to /repo's working tree, run the quick checks, always undo
+# tools/run_seeded.sh <patch.diff> [ID ...]   apply a seeded change to /repo's (or $VERIF_REPO's) working tree, run the quick checks, always undo
 # prints one line per check: <ID> ok | VIOLATION | MACHINERY-ERROR(<code>)
 set -u
 PATCH="$(realpath "$1")"; shift
 IDS="${*:-C01 C02 C03 C04 C05 C06 C07 C08 C09 C10 C11 C12 C13 C14 C15 C16 C17 C18 C19 C20}"
-cd /verif
-if ! git -C /repo diff --quiet; then echo "refusing: /repo has uncommitted changes" >&2; exit 2; fi
-undo() { git -C /repo checkout -- . ; }
+R="${VERIF_REPO:-/repo}"
+cd "$(dirname "$0")/.."
+if ! git -C "$R" diff --quiet; then echo "refusing: /repo has uncommitted changes" >&2; exit 2; fi
+undo() { git -C "$R" checkout -- . ; }
 trap undo EXIT
-git -C /repo apply "$PATCH" || { echo "patch does not apply" >&2; exit 2; }
+git -C "$R" apply "$PATCH" || { echo "patch does not apply" >&2; exit 2; }
 for id in $IDS; do
   out="$(VERIF_STALL_S=${VERIF_STALL_S:-15} ./check "$id" ${TIER:-quick} 2>&1)"; code=$?
   case $code in
